@@ -205,6 +205,21 @@ theorem runLoop_eq_frun (b as : List K) (a0 : K) (gain : Gain K)
     rw [← hm, ← hd] at this
     exact this
 
+/-! ### dense coefficient lists -/
+
+theorem coefAt_nil (k : Int) : coefAt ([] : Terms K) k = 0 := rfl
+
+/-- `a0 ≠ 0` ⇒ the dense denominator is `a0 :: as` -/
+theorem dense_cons (den : Terms K) (h0 : coefAt den 0 ≠ 0) :
+    dense den = coefAt den 0 :: (dense den).tail := by
+  have hne : den.isEmpty = false := by
+    cases den with
+    | nil => exact absurd (coefAt_nil 0) h0
+    | cons _ _ => rfl
+  simp only [dense, hne, Bool.false_eq_true, if_false, List.range_succ_eq_map, List.map_cons,
+    List.tail_cons]
+  rfl
+
 /-! ### all coefficients zero -/
 
 theorem dot_zero_coeffs (c v : List K) (h : ∀ x ∈ c, x = 0) : dot c v = 0 := by
